@@ -2200,7 +2200,7 @@ struct Mix {
 fn mix_for(property: &str) -> Mix {
     match property {
         "C01" => Mix { bp: 30, rm: 14, cont: 44, stepi: 8, step: 1, next: 1, finish: 2, restart: 0, call: 0, watch: 3, end: 0, mem: 0, sel: 0, sig: 0 },
-        "C03" => Mix { bp: 8, rm: 3, cont: 14, stepi: 15, step: 22, next: 22, finish: 16, restart: 0, call: 0, watch: 0, end: 0, mem: 0, sel: 0, sig: 6 },
+        "C03" => Mix { bp: 8, rm: 3, cont: 12, stepi: 15, step: 21, next: 21, finish: 15, restart: 0, call: 0, watch: 0, end: 0, mem: 0, sel: 5, sig: 6 },
         "C05" => Mix { bp: 12, rm: 3, cont: 25, stepi: 30, step: 10, next: 5, finish: 10, restart: 0, call: 0, watch: 0, end: 0, mem: 0, sel: 18, sig: 0 },
         "C11" => Mix { bp: 20, rm: 6, cont: 30, stepi: 6, step: 5, next: 5, finish: 5, restart: 5, call: 2, watch: 5, end: 8, mem: 0, sel: 0, sig: 0 },
         "C14" => Mix { bp: 8, rm: 2, cont: 18, stepi: 6, step: 2, next: 2, finish: 6, restart: 6, call: 0, watch: 48, end: 2, mem: 0, sel: 0, sig: 0 },
